@@ -1440,7 +1440,12 @@ func (p *Parser) parseExprList(end token.Type) []ast.Expression {
 		if err := p.nextToken(); err != nil {
 			return nil
 		}
-		list = append(list, p.parseExpression(LOWEST))
+		expr := p.parseExpression(LOWEST)
+		if expr == nil && !p.curTokenIs(token.EOF) {
+			p.setTokenError(p.curToken, "invalid syntax in list expression")
+			return nil
+		}
+		list = append(list, expr)
 	}
 	for p.peekTokenIs(token.NEWLINE) {
 		if err := p.nextToken(); err != nil {
@@ -1514,6 +1519,10 @@ func (p *Parser) parseIndex(leftNode ast.Node) ast.Node {
 	if !p.peekTokenIs(token.COLON) {
 		p.nextToken() // move to the first index
 		firstIndex = p.parseExpression(LOWEST)
+		if firstIndex == nil {
+			p.setTokenError(p.curToken, "invalid index expression")
+			return nil
+		}
 		if p.peekTokenIs(token.RBRACKET) {
 			p.nextToken() // move to the "]"
 			return ast.NewIndex(indexToken, left, firstIndex)
@@ -1527,6 +1536,10 @@ func (p *Parser) parseIndex(leftNode ast.Node) ast.Node {
 		}
 		p.nextToken() // move to the second index
 		secondIndex = p.parseExpression(LOWEST)
+		if secondIndex == nil {
+			p.setTokenError(p.curToken, "invalid index expression")
+			return nil
+		}
 	}
 	if !p.expectPeek("an index expression", token.RBRACKET) {
 		return nil
@@ -1698,10 +1711,18 @@ func (p *Parser) parseMapOrSet() ast.Node {
 	}
 	p.nextToken() // move to the first key
 	firstKey := p.parseExpression(LOWEST)
+	if firstKey == nil && !p.curTokenIs(token.EOF) {
+		p.setTokenError(p.curToken, "invalid syntax in set expression")
+		return nil
+	}
 	if p.peekTokenIs(token.COLON) { // This is a map
 		p.nextToken() // move to the ":"
 		p.nextToken() // move to the first value
 		firstValue := p.parseExpression(LOWEST)
+		if firstValue == nil && !p.curTokenIs(token.EOF) {
+			p.setTokenError(p.curToken, "invalid syntax in map expression")
+			return nil
+		}
 		pairs := map[ast.Expression]ast.Expression{firstKey: firstValue}
 		for !p.peekTokenIs(token.RBRACE) {
 			if p.peekTokenIs(token.NEWLINE) {
@@ -1758,6 +1779,10 @@ func (p *Parser) parseMapOrSet() ast.Node {
 				return nil
 			}
 			key := p.parseExpression(LOWEST)
+			if key == nil && !p.curTokenIs(token.EOF) {
+				p.setTokenError(p.curToken, "invalid syntax in set expression")
+				return nil
+			}
 			items = append(items, key)
 			if !p.peekTokenIs(token.COMMA) {
 				break
